@@ -156,6 +156,27 @@ fn run_one(job: &Value, atomics: bool) -> ExecResult {
     }
 }
 
+static OUT_FD: std::sync::atomic::AtomicI32 = std::sync::atomic::AtomicI32::new(-1);
+
+/// The code under test aborted the process (e.g. a panic inside a thread-local destructor): write the events of the
+/// execution in flight straight to the trace file, so that the prefix can still be validated, then exit.
+extern "C" fn on_abort(_sig: libc::c_int) {
+    let fd = OUT_FD.load(std::sync::atomic::Ordering::SeqCst);
+    if fd >= 0 {
+        if let Some(events) = sched::try_events() {
+            let mut buf = String::new();
+            for ev in events.iter() {
+                buf.push_str(&ev.to_string());
+                buf.push('\n');
+            }
+            unsafe {
+                libc::write(fd, buf.as_ptr() as *const libc::c_void, buf.len());
+            }
+        }
+    }
+    unsafe { libc::_exit(134) }
+}
+
 fn cmd_run(args: &[String]) {
     let mut inp = None;
     let mut out = None;
@@ -190,7 +211,15 @@ fn cmd_run(args: &[String]) {
         }
     }));
     let rd = std::io::BufReader::new(std::fs::File::open(&inp).expect("open in"));
-    let mut wr = BufWriter::new(std::fs::File::create(&out).expect("create out"));
+    let out_file = std::fs::File::create(&out).expect("create out");
+    {
+        use std::os::fd::AsRawFd;
+        OUT_FD.store(out_file.as_raw_fd(), std::sync::atomic::Ordering::SeqCst);
+        unsafe {
+            libc::signal(libc::SIGABRT, on_abort as usize);
+        }
+    }
+    let mut wr = BufWriter::new(out_file);
     let mut swr = BufWriter::new(std::fs::File::create(format!("{}.sched", out)).expect("create sched out"));
     let mut seqno: i64 = 0;
     for line in rd.lines() {
